@@ -8,3 +8,6 @@
 ; string-value is not a number contributing nothing (defined by the axioms ssum-zero / ssum-step in
 ; the contract file, used only where sum() is verified).
 (declare-fun ssum (Int Int Int) F64)
+; runestr(r): the UTF-8 encoding of rune r as a string (strings.Builder.WriteRune)
+(define-sort Rune () (_ BitVec 32))
+(declare-fun runestr (Rune) Str)
